@@ -9,6 +9,7 @@
 //! reports what happened: value | error | panic | op_panic | hang | bloat | bad_state.
 mod decoders;
 mod grammar;
+mod live;
 mod meter;
 mod templates;
 
@@ -26,7 +27,7 @@ pub struct Bounds {
     pub alloc_slack: usize,
 }
 
-fn severity(res: &str) -> u8 {
+pub fn severity(res: &str) -> u8 {
     match res {
         "panic" => 9,
         "op_panic" => 8,
@@ -39,12 +40,93 @@ fn severity(res: &str) -> u8 {
     }
 }
 
-fn hex(b: &[u8]) -> String {
+pub fn hex(b: &[u8]) -> String {
     let mut s = String::with_capacity(b.len().min(2048) * 2);
     for x in b.iter().take(2048) {
         s.push_str(&format!("{x:02x}"));
     }
     s
+}
+
+pub fn is_text(leaves: &[Leaf]) -> bool {
+    leaves.first().map(|l| matches!(l.k.as_str(), "num" | "word" | "text" | "line")).unwrap_or(false)
+}
+
+/// A genuine message of a template, located through its grammar table.
+pub enum Genuine {
+    Bin(Vec<u8>, grammar::Located),
+    Text(String),
+}
+
+impl Genuine {
+    /// Conformance of the genuine message to the table.
+    pub fn new(leaves: &[Leaf], bytes: Vec<u8>) -> Result<Genuine, String> {
+        if is_text(leaves) {
+            let text = String::from_utf8(bytes).map_err(|e| e.to_string())?;
+            for l in leaves {
+                if grammar::text_locate(&text, l).is_none() {
+                    return Err(format!("text leaf {} ({} token {}) not found", l.n, l.s, l.w));
+                }
+            }
+            Ok(Genuine::Text(text))
+        } else {
+            let lo = grammar::locate(leaves, &bytes)?;
+            Ok(Genuine::Bin(bytes, lo))
+        }
+    }
+
+    pub fn bytes(&self) -> Vec<u8> {
+        match self {
+            Genuine::Bin(b, _) => b.clone(),
+            Genuine::Text(t) => t.clone().into_bytes(),
+        }
+    }
+
+    /// The concrete input of class (leaf idx, mutation); `noise` = Some(rng) fills the unconstrained bytes first.
+    pub fn concretise(&self, leaves: &[Leaf], idx: usize, mutn: &str, noise: Option<&mut Rng>) -> Option<Vec<u8>> {
+        match self {
+            Genuine::Bin(b, lo) => {
+                let mut msg = b.clone();
+                if let Some(rng) = noise {
+                    grammar::noise(leaves, lo, &mut msg, rng);
+                }
+                grammar::mutate(leaves, lo, &msg, idx, mutn)
+            }
+            Genuine::Text(t) => grammar::text_mutate(t, &leaves[idx], mutn).map(String::into_bytes),
+        }
+    }
+
+    pub fn has_noise(&self) -> bool {
+        matches!(self, Genuine::Bin(..))
+    }
+}
+
+fn run_decoder(entry: &str, tpl: &str, input: &[u8]) -> decoders::Outcome {
+    if entry == "sdp" || entry == "candidate" {
+        match std::str::from_utf8(input) {
+            Ok(s) => decoders::run_text(entry, s),
+            Err(_) => decoders::run_text(entry, &String::from_utf8_lossy(input)),
+        }
+    } else {
+        decoders::run(entry, tpl, input)
+    }
+}
+
+/// Apply the quantitative part of the contract to a finished step.
+pub fn apply_bounds(bounds: &Bounds, res: &mut &'static str, detail: &mut String, cpu: u64, peak: usize, in_len: usize) {
+    if severity(res) > 2 {
+        return;
+    }
+    if cpu > bounds.cpu_us {
+        *res = "hang";
+        *detail = format!("{cpu} us CPU for {in_len} input bytes (bound {} us)", bounds.cpu_us);
+        return;
+    }
+    let limit = bounds.alloc_factor * in_len + bounds.alloc_slack;
+    if peak > limit {
+        *res = "bloat";
+        *detail = format!("{peak} bytes allocated for {in_len} input bytes (bound {limit})");
+    }
 }
 
 /// Measured execution of one decoder call sequence.
@@ -53,33 +135,36 @@ fn measured(bounds: &Bounds, entry: &str, tpl: &str, input: &[u8]) -> Value {
         let _ = meter::take_panics();
         let base = meter::alloc_begin();
         let t0 = meter::thread_cpu_us();
-        let out = decoders::run(entry, tpl, input);
+        let out = run_decoder(entry, tpl, input);
         let cpu = meter::thread_cpu_us() - t0;
         let peak = meter::alloc_peak_since(base);
         (out, cpu, peak)
     };
     let (out, mut cpu, peak) = run_once();
-    let mut res = out.res;
-    let mut detail = out.detail.clone();
-    if severity(res) <= 2 {
-        if cpu > bounds.cpu_us {
-            // confirm: the bound is on CPU time of this thread, but stay robust against a noisy machine
-            for _ in 0..2 {
-                cpu = cpu.min(run_once().1);
-            }
-            if cpu > bounds.cpu_us {
-                res = "hang";
-                detail = format!("{cpu} us CPU for {} input bytes (bound {} us)", input.len(), bounds.cpu_us);
-            }
-        }
-        let limit = bounds.alloc_factor * input.len() + bounds.alloc_slack;
-        if res != "hang" && peak > limit {
-            res = "bloat";
-            detail = format!("{peak} bytes allocated for {} input bytes (bound {limit})", input.len());
+    if severity(out.res) <= 2 && cpu > bounds.cpu_us {
+        // confirm: the bound is on CPU time of this thread, but stay robust against a noisy machine
+        for _ in 0..2 {
+            cpu = cpu.min(run_once().1);
         }
     }
+    let mut res = out.res;
+    let mut detail = out.detail.clone();
+    apply_bounds(bounds, &mut res, &mut detail, cpu, peak, input.len());
     let panics = meter::take_panics();
     json!({"res": res, "detail": detail, "ops": out.ops, "cpu_us": cpu, "alloc": peak, "in_len": input.len(), "panics": panics})
+}
+
+pub struct Ctx {
+    pub grammars: HashMap<String, Vec<Leaf>>,
+    pub bounds: Bounds,
+    pub seed: Rng,
+    pub nvariants: u64,
+}
+
+impl Ctx {
+    pub fn rng_for(&self, case: usize, variant: u64) -> Rng {
+        Rng(self.seed.0 ^ (case as u64).wrapping_mul(0x9E37_79B9) ^ (variant << 56))
+    }
 }
 
 fn main() {
@@ -112,10 +197,10 @@ fn main() {
     let mut out = NdjsonOut::create(&args[3]);
     meter::install_panic_hook();
     let nvariants: u64 = std::env::var("VERIF_VARIANTS").ok().and_then(|s| s.parse().ok()).unwrap_or(2);
-    let seed = Rng::from_env();
+    let ctx = Ctx { grammars, bounds, seed: Rng::from_env(), nvariants };
 
-    // conformance of the genuine messages to the grammar tables, and acceptance of the genuine message
-    let mut located: HashMap<String, (Vec<u8>, grammar::Located)> = HashMap::new();
+    // conformance of the static genuine messages to the grammar tables, and acceptance of the genuine message
+    let mut genuine: HashMap<String, Genuine> = HashMap::new();
     let mut tpl_entry: Vec<(String, String)> = Vec::new();
     for c in &cases {
         let k = (c["tpl"].as_str().unwrap().to_string(), c["entry"].as_str().unwrap().to_string());
@@ -124,24 +209,25 @@ fn main() {
         }
     }
     for (tpl, entry) in &tpl_entry {
-        let Some(genu) = templates::genuine(tpl) else { continue };
-        let leaves = &grammars[tpl];
-        match grammar::locate(leaves, &genu) {
-            Ok(lo) => {
+        let Some(bytes) = templates::genuine(tpl).or_else(|| templates::text(tpl).map(String::into_bytes)) else { continue };
+        let leaves = &ctx.grammars[tpl];
+        match Genuine::new(leaves, bytes.clone()) {
+            Ok(g) => {
                 if shard == 0 {
-                    let m = measured(&bounds, entry, tpl, &genu);
-                    out.push(&json!({"type": "baseline", "tpl": tpl, "entry": entry, "conforms": true, "res": m["res"], "detail": m["detail"], "len": genu.len()}));
+                    let m = measured(&ctx.bounds, entry, tpl, &bytes);
+                    out.push(&json!({"type": "baseline", "tpl": tpl, "entry": entry, "conforms": true, "res": m["res"], "detail": m["detail"], "len": bytes.len()}));
                 }
-                located.insert(tpl.clone(), (genu, lo));
+                genuine.insert(tpl.clone(), g);
             }
             Err(e) => {
                 if shard == 0 {
-                    out.push(&json!({"type": "baseline", "tpl": tpl, "entry": entry, "conforms": false, "detail": e, "hex": hex(&genu)}));
+                    out.push(&json!({"type": "baseline", "tpl": tpl, "entry": entry, "conforms": false, "detail": e, "hex": hex(&bytes)}));
                 }
             }
         }
     }
 
+    let mut live_state = live::State::default();
     let mut n_run = 0usize;
     for (ci, c) in cases.iter().enumerate() {
         if ci % nshards != shard {
@@ -153,25 +239,32 @@ fn main() {
         let idx = c["idx"].as_u64().unwrap() as usize - 1;
         let mut obs = json!({"type": "obs", "case": ci, "entry": entry, "phase": c["phase"], "tpl": tpl, "field": c["field"], "mut": mutn});
         if c["kind"] != "decoder" {
-            obs["res"] = json!("unsupported");
+            // one runtime per case: helper tasks the stack spawned die with it and cannot bleed into the next case
+            let rt = tokio::runtime::Builder::new_current_thread().enable_all().build().expect("runtime");
+            let r = rt.block_on(live::run_case(&ctx, &mut live_state, ci, c));
+            drop(rt);
+            for b in live_state.take_baselines() {
+                out.push(&b);
+            }
+            n_run += r["runs"].as_u64().unwrap_or(0) as usize;
+            for (k, v) in r.as_object().unwrap() {
+                obs[k] = v.clone();
+            }
             out.push(&obs);
             continue;
         }
-        let Some((genu, lo)) = located.get(tpl) else {
+        let Some(g) = genuine.get(tpl) else {
             obs["res"] = json!("no_template");
             out.push(&obs);
             continue;
         };
-        let leaves = &grammars[tpl];
+        let leaves = &ctx.grammars[tpl];
         let mut worst: Option<Value> = None;
-        for v in 0..nvariants {
-            let mut msg = genu.clone();
-            if v > 0 {
-                let mut rng = Rng(seed.0 ^ (ci as u64).wrapping_mul(0x9E37_79B9) ^ (v << 56));
-                grammar::noise(leaves, lo, &mut msg, &mut rng);
-            }
-            let Some(input) = grammar::mutate(leaves, lo, &msg, idx, mutn) else { continue };
-            let mut m = measured(&bounds, entry, tpl, &input);
+        let nv = if g.has_noise() { nvariants } else { 1 };
+        for v in 0..nv {
+            let mut rng = ctx.rng_for(ci, v);
+            let Some(input) = g.concretise(leaves, idx, mutn, if v > 0 { Some(&mut rng) } else { None }) else { continue };
+            let mut m = measured(&ctx.bounds, entry, tpl, &input);
             m["variant"] = json!(v);
             let sev = severity(m["res"].as_str().unwrap());
             if sev > 2 {
